@@ -427,7 +427,36 @@ def r7(ctx):
     ctx.floor(R, 2)
 
 
+def r8(ctx):
+    R = "C19-R8"
+    ctx.rule(R, "(a) what leaves the kernels goes to the scheduler: EnterGuard::egress_all is called from Scheduler::tick only - a fixture that "
+                "drains egress itself (a loopback-only shortcut) discards non-loopback packets without consulting a single rule; (b) the "
+                "built-in Latency rule decides every packet it is shown: its on_packet never answers Pass (a zero delay is Deliver(0), "
+                "which ends the chain - later rules must not see the packet)")
+    callers = sorted({_rootid(ctx, b) for b, bb, t in who_calls(ctx.w, re.compile(r"EnterGuard::egress_all$"))})
+    ok = bool(callers) and all(c.startswith("turmoil_net::fixture::scheduler::Scheduler::") for c in callers)
+    ctx.inst(R, "egress_all:only-the-scheduler", ok, "", f"egress_all is called from {callers}" if ok else
+             f"EnterGuard::egress_all is called from {callers}: packets drained there never reach Net::evaluate - installed rules are not consulted for them (the `lo` and `ClientServer` "
+             "fixtures no longer agree on the rule-chain contract)")
+    lp = ctx.w.bodies.get("<turmoil_net::rule::Latency as turmoil_net::rule::Rule>::on_packet")
+    if lp:
+        passes = [s2["s"] for bb, i, s2 in lp.all_stmts() if i != "term" and s2["r"]["k"] == "agg" and s2["r"].get("variant") == "Pass"]
+        ctx.inst(R, "latency-rule:always-decides", not passes, passes[0] if passes else lp.span, "Latency::on_packet always answers Deliver(delay)" if not passes else
+                 "the built-in Latency rule answers Pass on some path: a zero-delay Latency installed ahead of other rules no longer ends the chain - packets it should have delivered at "
+                 "once are dropped or delayed by later rules")
+    elif ctx.strict:
+        ctx.bad(R, "anchor-missing:Latency::on_packet", "", "Rule impl of Latency not found")
+    ctx.floor(R, 2)
+
+
+def _rootid(ctx, b):
+    while b.parent and b.parent in ctx.w.bodies:
+        b = ctx.w.bodies[b.parent]
+    return b.id
+
+
 def run(ctx):
+    r8(ctx)
     r7(ctx)
     r6(ctx)
     r1(ctx)
